@@ -462,6 +462,19 @@ func (p *partition) Subscribe(ctx context.Context, req *client.SubscribeRequest)
 		return nil, status.New(codes.ResourceExhausted, "Beginning of partition reached")
 	}
 
+	// Retention can remove every message from the log, which leaves nothing to
+	// read up to a stop offset that is not past the end of the log. The reader
+	// would wait for the next message to be published, so end the subscription
+	// as on a partition that has never been written to. A readonly partition
+	// is left to the reader, which ends the subscription with the readonly
+	// error. The end of the log is read before the beginning such that a
+	// message published in between is not taken for a removed one.
+	if stopOffset != waitForNewMessages && !req.Reverse &&
+		req.StopPosition != client.StopPosition_STOP_ON_CANCEL &&
+		stopOffset <= p.log.NewestOffset() && p.log.OldestOffset() == -1 {
+		return nil, status.New(codes.ResourceExhausted, "Stream is empty")
+	}
+
 	// Cancel previous group subscriber if there was one.
 	if previousSubscriber != nil {
 		p.srv.logger.Debugf("Replacing group %s consumer %s with consumer %s for partition %s",
